@@ -8,7 +8,7 @@
 From Coq Require Import List String Bool Permutation.
 From SCC Require Import Lang.FunSyn Model.Check Sem.FunTyping
   Proof.CheckWitness Proof.CheckAnn Proof.TypingReject Proof.CheckBuild Proof.CheckMono
-  Proof.CheckMonoSound Proof.CheckMonoProg Proof.CheckMonoComplete Proof.CheckMonoProgC.
+  Proof.CheckMonoSound Proof.CheckMonoProg Proof.CheckMonoComplete Proof.CheckMonoProgC Proof.CheckMonoFaithful.
 
 (* soundness: false in general (check_sound_refuted_lemma); holds for programs without type
    parameters and type arguments, for the checker as it is and for the repaired one *)
@@ -41,6 +41,12 @@ Qed.
 Lemma check_accepts_repaired_accepts_partial : forall p q, mono_prog p = true ->
   check p = COk q -> exists q', check_repaired p = COk q'.
 Proof. intros p q Hm H. apply check_complete_partial; [assumption|]. eapply check_sound_partial; eassumption. Qed.
+
+(* the checker as it is, on a well-typed program of the fragment: accepted, or rejected with the
+   one error variant `Undefined` - never with any other diagnostic *)
+Lemma check_undefined_only_partial : forall p, mono_prog p = true -> has_type p ->
+  (exists q, check p = COk q) \/ check p = CErr EUndefined.
+Proof. exact check_faithful_mono. Qed.
 
 (* q is p plus annotations *)
 Definition check_annotates := check_gen_annotates false.
